@@ -1,7 +1,8 @@
 (** Proofs of the pinned statements of C03 (BV/AccessStatements.v). *)
 From WG Require Import Base.Prelude Codes.Codes Codes.Statements Codes.CodesFacts
   BV.Model BV.RefSel BV.Statements BV.CompFacts BV.NodeFacts BV.GraphFacts BV.Bits
-  BV.BitsFacts BV.OffsetsFacts BV.WfFacts BV.GreedyFacts BV.Access BV.AccessStatements.
+  BV.BitsFacts BV.OffsetsFacts BV.WfFacts BV.GreedyFacts BV.Access BV.MergeFacts
+  BV.AccessStatements.
 From Coq Require Import ZifyBool ZifyN ZifyNat.
 Local Open Scope N_scope.
 
@@ -395,22 +396,24 @@ Section View.
   Lemma view_parse x cur lookup :
     nth_opt g x = Some cur -> lookup_ok x lookup ->
     exists r, parse_record St rd p (N.of_nat x) lookup (st x) = Some (r, st (S x))
-              /\ record_succ r = cur.
+              /\ record_succ r = cur
+              /\ (r_ref r = 0 \/ nth_opt sel x = Some (r_ref r)).
   Proof.
     intros Hx Hl. destruct (Hview x cur Hx) as (d & rl & Hs & Hr & Hw & Hd).
     assert (Hc : inc cur).
     { rewrite Forall_forall in Hinc. apply Hinc. eapply nth_opt_In, Hx. }
     destruct (parse_record_wf St rd p (N.of_nat x) cur d rl lookup (st x) (st (S x)) Hc Hw)
-      as (r & Hp & Hsucc & _); [|exact Hr|].
+      as (r & Hp & Hsucc & Href & _); [|exact Hr|].
     - intros Hnz. destruct (Hd Hnz) as [H1 H2]. split; [lia|]. apply (Hl d rl Hs Hnz H1 H2).
-    - exists r. split; assumption.
+    - exists r. split; [exact Hp|]. split; [exact Hsucc|].
+      destruct Href as [E|E]; [left; exact E|right; rewrite E; exact Hs].
   Qed.
 
   Lemma view_decode_node x cur lookup :
     nth_opt g x = Some cur -> lookup_ok x lookup ->
     decode_node St rd p (N.of_nat x) lookup (st x) = Some (cur, st (S x)).
   Proof.
-    intros Hx Hl. destruct (view_parse x cur lookup Hx Hl) as (r & Hp & Hs).
+    intros Hx Hl. destruct (view_parse x cur lookup Hx Hl) as (r & Hp & Hs & _).
     unfold decode_node. rewrite Hp. cbn [obind]. rewrite Hs. reflexivity.
   Qed.
 
@@ -440,6 +443,31 @@ Section View.
     replace (N.of_nat x - d) with (N.of_nat (x - N.to_nat d)) by lia.
     destruct (depths_step sel x d dep Hs Hdep Hnz Hle) as (dep' & Hd' & E).
     eapply IH; [exact Hrl|exact Hd'|lia].
+  Qed.
+
+  (** ** random access collecting by the lazy three-way merge *)
+  Lemma view_ra_merge : forall fuel x cur,
+    nth_opt g x = Some cur -> (x < fuel)%nat ->
+    ra_labels_merge St rd seek p fuel (N.of_nat x) = Some cur.
+  Proof.
+    induction fuel as [|f IH]; intros x cur Hx Hf; [lia|].
+    cbn [ra_labels_merge].
+    rewrite Hseek by (apply nth_opt_some_lt in Hx; lia). cbn [obind].
+    assert (Hl : lookup_ok x (fun d => ra_labels_merge St rd seek p f (N.of_nat x - d))).
+    { intros d rl Hs Hnz Hle Hrl.
+      replace (N.of_nat x - d) with (N.of_nat (x - N.to_nat d)) by lia.
+      apply IH; [exact Hrl|lia]. }
+    destruct (view_parse x cur _ Hx Hl) as (r & Hp & Hs & Href).
+    rewrite Hp. cbn [obind]. f_equal. rewrite <- Hs.
+    eapply record_succ_merge_eq; [exact Hp|].
+    intros l Hnz Hlk.
+    destruct Href as [E|E]; [contradiction|].
+    destruct (Hview x cur Hx) as (d & rl & Hs' & _ & _ & Hd).
+    rewrite E in Hs'. injection Hs' as <-.
+    destruct (Hd Hnz) as [H1 H2].
+    pose proof (Hl _ rl E Hnz H1 H2) as Hq. cbn beta in Hq, Hlk.
+    rewrite Hq in Hlk. injection Hlk as <-.
+    rewrite Forall_forall in Hinc. apply Hinc. eapply nth_opt_In, H2.
   Qed.
 
   (** ** outdegree *)
@@ -558,7 +586,7 @@ Section View.
       destruct (d =? 0) eqn:E0; [apply N.eqb_eq in E0; contradiction|].
       destruct (Nat.ltb x (N.to_nat d)) eqn:E1; [apply Nat.ltb_lt in E1; lia|].
       exact Hrl. }
-    destruct (view_parse x cur lookup Hx Hl) as (r & Hp & Hs).
+    destruct (view_parse x cur lookup Hx Hl) as (r & Hp & Hs & _).
     destruct (parse_skip St rd p (N.of_nat x) lookup dl (st x) r (st (S x)) Hp) as [H1 H2].
     - intros d' l. unfold lookup.
       destruct (nth_opt sel x) as [d|] eqn:Es; [|discriminate].
@@ -967,6 +995,12 @@ Proof.
   eapply view_ra with (g := g) (sel := sel) (st := est le cs p g sel rest); solve_view.
 Qed.
 
+Theorem ra_merge_eq : S_ra_merge_eq.
+Proof.
+  intros le cs p g sel rest fuel x l Hok Hinc Hv Hx Hf.
+  eapply view_ra_merge with (g := g) (sel := sel) (st := est le cs p g sel rest); solve_view.
+Qed.
+
 Theorem ra_fuel_depth : S_ra_fuel_depth.
 Proof.
   intros le cs p g sel rest fuel x l dep Hok Hinc Hv Hx Hd Hf.
@@ -1052,5 +1086,6 @@ Print Assumptions ra_eq_seq.
 Print Assumptions ra_fuel.
 Print Assumptions iter_from_eq.
 Print Assumptions offdeg_from_eq.
+Print Assumptions ra_merge_eq.
 Print Assumptions iter_from_ring_eq.
 Print Assumptions next_successors_eq.
